@@ -156,6 +156,14 @@ def main():
     scratch.mkdir(parents=True, exist_ok=True)
     inconclusive = []
     prep_notes = {}
+    # the checker binary reads /dev/null in its two-argument form and most subprocesses are pointed at it; a sandbox in which some
+    # tool replaced the device by a regular file (e.g. `rustc -o /dev/null` run as root) makes every such observation meaningless
+    import stat
+    try:
+        if not stat.S_ISCHR(os.stat('/dev/null').st_mode):
+            inconclusive.append('environment: /dev/null is not a character device (restore it with `rm -f /dev/null; mknod -m 666 /dev/null c 1 3`)')
+    except OSError as e:
+        inconclusive.append(f'environment: /dev/null cannot be inspected: {e!r}')
     try:
         if hasattr(mod, 'prepare'):
             try:
@@ -210,6 +218,11 @@ def main():
     finally:
         shutil.rmtree(scratch, ignore_errors=True)
 
+    try:
+        if not stat.S_ISCHR(os.stat('/dev/null').st_mode) and not any('/dev/null' in r for r in inconclusive):
+            inconclusive.append('environment: /dev/null stopped being a character device while the check ran')
+    except OSError:
+        pass
     # floors
     floors = (mod.FLOORS.get(args.tier, {}) if hasattr(mod, 'FLOORS') else {})
     for k, need in floors.items():
